@@ -27,7 +27,8 @@ META = {
             "exhaustive within depth 3 in the quick tier and depth 4 in the thorough tier.",
 }
 
-LEVELS = [("let", ("x",)), ("let", ("y",)), ("let", ("x", "y")), ("fn",), ("defn",), ("later", "x"), ("lfor", "x"), ("let2", "x"), ("lforx", "x"), ("lfor2x", "x")]
+LEVELS = [("let", ("x",)), ("let", ("y",)), ("let", ("x", "y")), ("fn",), ("defn",), ("later", "x"), ("lfor", "x"), ("let2", "x"), ("lforx", "x"), ("lfor2x", "x"),
+          ("lforsetv", "x")]
 PRE = [(), (SETV("x"),), (LOG("x"),)]
 POST = [(LOG("x"),), (LOG("x"), LOG("y")), (SETV("x"), LOG("x"))]
 INNER = [(LOG("x"), LOG("y")), (SETV("x"), LOG("x")), (LOG2("x"), SETV("y"), LOG("y")), (SETV("y"), SETV("x"), LOG("x"), LOG("y"))]
@@ -126,7 +127,7 @@ def _shape(body):
             for i in range(5):
                 tag = tag.replace(f"let[x,c{i},x]", "let[x,closure,x]")
             out.append(tag + ">" + _shape(sub))
-        elif t[0] in ("lfor", "lforx", "lfor2x"):
+        elif t[0] in ("lfor", "lforx", "lfor2x", "lforsetv", "lforsetvx"):
             out.append(t[0])
     return "+".join(out)
 
@@ -150,9 +151,43 @@ def _w_spine(task):
     return n, per
 
 
+def comprehension_locals(chk):
+    """Variables a comprehension creates (iteration variables and `:setv` clauses) are local to it: a same-named variable of the enclosing
+    scope - let-bound, a function's, or the module's - is neither read nor assigned, also when the comprehension is a real Python
+    comprehension (read by value: CPython 3.12.0-3.12.3 mis-compile closures over names that inlined comprehensions bind)."""
+    import types
+    import hy
+    cases = {
+        '(setv x 3) (let [x 1] (defn f [] (lfor y (range 3) :setv x y x) x) (f))': 1,
+        '(setv x 3) (let [x 1] (defn f [] [(lfor y [5] :setv x (+ y 1) x) x]) [(f) x])': [[[6], 1], 1],
+        '(defn f [] (let [x 1] [(lfor y [5] :setv x y x) x])) (f)': [[5], 1],
+        '(let [x 1] [(lfor y [5] :setv x y x) x])': [[5], 1],
+        '(let [x 1] [(lfor y [5] :setv x y :do None x) x])': [[5], 1],
+        '(setv x 1) [(lfor y [5] :setv x y :do None x) x]': [[5], 1],
+        '(defn f [] (setv x 1) [(lfor y [5] :setv x y :do None x) x]) (f)': [[5], 1],
+        '(let [x 1] (defn f [] [(sfor y [5] :setv x y :do None x) x]) (f))': [{5}, 1],
+        '(let [x 1] [(dfor y [5] :setv x y :do None x x) x])': [{5: 5}, 1],
+        '(let [x 1] [(list (gfor y [5] :setv x y :do None x)) x])': [[5], 1],
+        '(let [x 1] [(lfor y [5] :setv x y (let [x 7] x)) x])': [[7], 1],
+        '(let [x 1] [(lfor y [5] :setv x y :setv x (+ x 1) :do None x) x])': [[6], 1],
+        '(let [x 1] [(lfor x [5] :do None x) x])': [[5], 1],
+        '(let [x 1] (defn f [] [(lfor x [5] x) x]) (f))': [[5], 1],
+        '(let [x 1] [(lfor y [5] :if (do (setv z y) True) :setv x z x) x])': [[5], 1],
+    }
+    for src, want in cases.items():
+        try:
+            got = hy.eval(hy.read_many(src), module=types.ModuleType("hv_c06c"))
+        except Exception as e:  # noqa: BLE001
+            got = f"{type(e).__name__}: {e}"[:200]
+        chk.case(("comprehension-locals", src))
+        chk.ob(f"comprehension/{src}", got == want, "cpython-oracle", "proved", detail=f"{got!r}, expected {want!r}",
+               replay=None if got == want else {"confirmed": True, "input": src, "observed": repr(got), "expected": repr(want)})
+
+
 def run(chk):
     quick = chk.tier == "quick"
     scope_contracts(chk)
+    comprehension_locals(chk)
     maxd = 3 if quick else 4
     tasks = []
     for d in range(1, maxd + 1):
